@@ -1,5 +1,6 @@
 import Nervus.Driver.Util
 import Nervus.Spec.VectorSearch
+import Nervus.Model.HnswBlob
 namespace Nervus.Driver.HnswStream
 open Nervus Nervus.Hnsw Nervus.Driver
 
@@ -20,7 +21,38 @@ def parseCoords (s : String) : Option Vec :=
 
 def b01 (b : Bool) : String := if b then "1" else "0"
 
+/-- the deterministic wide vector of the stream (`wide_coords` in harness/src/streams/hnsw.rs) -/
+def wideCoords (dim seed : Nat) : Vec :=
+  (List.range dim).map fun i => (((seed * 7919 + i * 104729 + (i / 3) * 31) % 7 : Nat) : Int) - 3
+
 def cfg : Cfg := Cfg.current
+
+/-- the words of a `blob` op (`blob_words` in harness/src/streams/hnsw.rs) -/
+def blobWords (n seed : Nat) : List Nat :=
+  (List.range n).map fun i => (seed * 2654435761 + i * 40503 + 1) % 4294967296
+
+def doVec (st : St) (id level : Nat) (v : Vec) : St × String × String × String :=
+  let re := (st.ix.vecs.lookup id).isSome
+  match insert intSpace st.p st.ix id v level with
+  | .ok ix' => ({ st with ix := ix', recent := 0, reinserted := st.reinserted || re }, "ok", "-", "")
+  | .error _ => ({ st with recent := 0 }, "err", "-", "")
+
+def doSearch (st : St) (k : Nat) (q : Vec) : St × String × String × String :=
+  let st' := { st with recent := if st.recent < 8 then st.recent + 1 else st.recent }
+  let n := (storedIds st.ix).length
+  let want := if n ≤ 2 * st.p.m + 1 ∧ n ≤ st.p.efS then "1" else "*"
+  let spec := "1 1 1 1 1 1 " ++ want
+  let trig := " ".intercalate (
+    (if st.reinserted then ["C31-reinsert-disconnects"] else []) ++
+    (if !cfg.kZero && k == 0 then ["C31-k-zero"] else []) ++
+    (if !cfg.skipTomb && !st.tomb.isEmpty then ["C31-deleted-node"] else []))
+  match searchVector cfg intSpace st.p st.ix st.tomb q k with
+  | .error _ => (st', "err", spec, trig)
+  | .ok r =>
+    let c := checkResult intSpace st.ix st.tomb q k r
+    let detail := if r.isEmpty then "-" else ",".intercalate (r.map fun h => toString h.2 ++ ":" ++ toString h.1)
+    let obs := " ".intercalate [b01 c.lenOk, b01 c.distinct, b01 c.sorted, b01 c.distOk, b01 c.hasVec, b01 c.live, b01 c.exact]
+    (st', obs ++ " | " ++ detail, spec, trig)
 
 def step (st : St) (ws : List String) : St × String × String × String :=
   match ws with
@@ -29,14 +61,26 @@ def step (st : St) (ws : List String) : St × String × String × String :=
     | some m, some efc, some efs => ({ St.init with p := ⟨m, efc, efs⟩ }, "ok", "-", "")
     | _, _, _ => (st, "bad-op", "-", "")
   | ["node"] => (st, "ok", "-", "")
+  -- the storage layer alone: write once, read with a cold cache (Model/HnswBlob, flags regenerated)
+  | ["blob", _kind, n, seed] =>
+    match n.toNat?, seed.toNat? with
+    | some n, some seed =>
+      let ws := blobWords n seed
+      let same := match HnswBlob.roundTrip HnswBlob.decodesPerPage HnswBlob.pagePayload ws with
+        | .ok r => r == ws
+        | .error _ => false
+      (st, if same then "same" else "diff", "same", "")
+    | _, _ => (st, "bad-op", "-", "")
   | ["vec", id, level, coords] =>
     match id.toNat?, level.toNat?, parseCoords coords with
-    | some id, some level, some v =>
-      let re := (st.ix.vecs.lookup id).isSome
-      match insert intSpace st.p st.ix id v level with
-      | .ok ix' => ({ st with ix := ix', recent := 0, reinserted := st.reinserted || re }, "ok", "-", "")
-      | .error _ => ({ st with recent := 0 }, "err", "-", "")
+    | some id, some level, some v => doVec st id level v
     | _, _, _ => (st, "bad-op", "-", "")
+  | ["bigvec", id, level, dim, seed] =>
+    match id.toNat?, level.toNat?, dim.toNat?, seed.toNat? with
+    | some id, some level, some dim, some seed => doVec st id level (wideCoords dim seed)
+    | _, _, _, _ => (st, "bad-op", "-", "")
+  -- profiles run on the real engine only: the model is not advanced (see `xsearch`)
+  | ["xvec", _, _, _, _] => ({ st with recent := 0 }, "ok", "-", "")
   | ["del", id] =>
     match id.toNat? with
     | some id => ({ st with tomb := if st.tomb.contains id then st.tomb else id :: st.tomb, recent := 0 }, "ok", "-", "")
@@ -44,23 +88,16 @@ def step (st : St) (ws : List String) : St × String × String × String :=
   | ["compact"] => ({ st with tomb := [], recent := 0 }, "ok", "-", "")
   | ["search", k, coords] =>
     match k.toNat?, parseCoords coords with
-    | some k, some q =>
-      let st' := { st with recent := if st.recent < 8 then st.recent + 1 else st.recent }
-      let n := (storedIds st.ix).length
-      let want := if n ≤ 2 * st.p.m + 1 ∧ n ≤ st.p.efS then "1" else "*"
-      let spec := "1 1 1 1 1 1 " ++ want
-      let trig := " ".intercalate (
-        (if st.reinserted then ["C31-reinsert-disconnects"] else []) ++
-        (if !cfg.kZero && k == 0 then ["C31-k-zero"] else []) ++
-        (if !cfg.skipTomb && !st.tomb.isEmpty then ["C31-deleted-node"] else []))
-      match searchVector cfg intSpace st.p st.ix st.tomb q k with
-      | .error _ => (st', "err", spec, trig)
-      | .ok r =>
-        let c := checkResult intSpace st.ix st.tomb q k r
-        let detail := if r.isEmpty then "-" else ",".intercalate (r.map fun h => toString h.2 ++ ":" ++ toString h.1)
-        let obs := " ".intercalate [b01 c.lenOk, b01 c.distinct, b01 c.sorted, b01 c.distOk, b01 c.hasVec, b01 c.live, b01 c.exact]
-        (st', obs ++ " | " ++ detail, spec, trig)
+    | some k, some q => doSearch st k q
     | _, _ => (st, "bad-op", "-", "")
+  | ["bigsearch", k, dim, seed] =>
+    match k.toNat?, dim.toNat?, seed.toNat? with
+    | some k, some dim, some seed => doSearch st k (wideCoords dim seed)
+    | _, _, _ => (st, "bad-op", "-", "")
+  -- soundness flags only; theorem `Props.C31.sound` gives them for ANY index state, so the model's
+  -- answer is this constant whatever the (not modelled) profile built
+  | ["xsearch", _, _, _] =>
+    ({ st with recent := if st.recent < 8 then st.recent + 1 else st.recent }, "1 1 1 1 1 1", "1 1 1 1 1 1", "")
   | ["reopen"] => (st, "same | " ++ toString st.recent, "same", "")
   | _ => (st, "bad-op", "-", "")
 
